@@ -10,7 +10,8 @@ def main():
     os.rmdir(wt)
     subprocess.check_call(["git", "-C", "/repo", "worktree", "add", "-q", "--detach", wt, "HEAD"])
     try:
-        subprocess.check_call(["git", "-C", wt, "apply", patch])
+        if subprocess.call(["git", "-C", wt, "apply", patch]) != 0:
+            subprocess.check_call(["git", "-C", wt, "apply", "--3way", patch])
         env = dict(os.environ, VERIF_REPO=wt)
         for pid in pids:
             p = subprocess.run([sys.executable, os.path.join(V, "tools", "check.py"), pid], cwd=V, env=env, capture_output=True, text=True)
